@@ -47,15 +47,15 @@ def _provider_class():
     class Scripted(PrimitiveProvider):
         lifetime = "test_case"
 
-        def __init__(self, cd, *, script, log):
+        def __init__(self, cd, *, script, log, policy=0):
             super().__init__(cd)
-            self.script, self.log, self.counters = script, log, {}
+            self.script, self.log, self.counters, self.policy = script, log, {}, policy
 
         def _pick(self, kind, sig, menu):
             pos = len(self.log)
             c = self.counters.get((kind, sig), 0)
             self.counters[(kind, sig)] = c + 1
-            default = c % len(menu)
+            default = (c + self.policy) % len(menu)   # policy shifts the whole default path (a second starting point)
             alt = self.script.get(pos)
             if alt is None:
                 idx = default
@@ -137,7 +137,7 @@ def _provider_class():
 _SCRIPTED = None
 
 
-def run_once(strategy, script):
+def run_once(strategy, script, policy=0):
     """one execution of the real generation code under scripted answers -> (value|None, status, log)"""
     global _SCRIPTED
     from hypothesis.control import BuildContext
@@ -147,7 +147,7 @@ def run_once(strategy, script):
     if _SCRIPTED is None:
         _SCRIPTED = _provider_class()
     log = []
-    cd = ConjectureData(random=None, provider=_SCRIPTED, provider_kw={"script": script, "log": log})
+    cd = ConjectureData(random=None, provider=_SCRIPTED, provider_kw={"script": script, "log": log, "policy": policy})
     val, status = None, "example"
     try:
         with warnings.catch_warnings():
@@ -166,15 +166,15 @@ def run_once(strategy, script):
     return val, status, log
 
 
-def explore(strategy, bound, judge, max_runs=None):
-    """all answer sequences with <= bound deviations.  judge(value, script, log) is called on every example."""
+def explore(strategy, bound, judge, max_runs=None, policy=0):
+    """all answer sequences with <= bound deviations from the default path of `policy`.  judge(value, script, log) is called on every example."""
     stats = {"runs": 0, "examples": 0, "no_example": 0, "max_points": 0, "capped": False}
 
     def rec(script, start, depth, parent_log):
         if max_runs is not None and stats["runs"] >= max_runs:
             stats["capped"] = True
             return
-        val, status, log = run_once(strategy, script)
+        val, status, log = run_once(strategy, script, policy)
         stats["runs"] += 1
         stats["max_points"] = max(stats["max_points"], len(log))
         if parent_log is not None and script:
@@ -263,6 +263,9 @@ def schema_space(tier):
     frames = {
         "plain": S.frame(cols=cols3),
         "unique_nullable": S.frame(cols=[dict(cols3[0], unique=True), dict(cols3[1], nullable=True), dict(cols3[2], nullable=True)]),
+        # two columns that are both nullable and unique (null-capable dtypes): masking must keep each column duplicate-free
+        "two_unique_nullable": S.frame(cols=[S.comp(name="x", dtype="float64", nullable=True, unique=True), S.comp(name="y", dtype="str", nullable=True, unique=True)]),
+        "joint_unique_nullable": S.frame(cols=[S.comp(name="x", dtype="float64", nullable=True), S.comp(name="y", dtype="float64", nullable=True)], unique=["x", "y"]),
         "index": S.frame(cols=cols3[:2], index=dict(S.comp(name="idx", dtype="int64", checks=[{"k": "ge", "a": [0]}], unique=True), kind="single")),
         "multiindex": S.frame(cols=cols3[:1], index={"kind": "multi", "levels": [S.comp(name="k1", dtype="str", checks=[{"k": "isin", "a": [["p", "q"]]}]),
                                                                                   S.comp(name="k2", dtype="int64", checks=[{"k": "ge", "a": [0]}])],
@@ -329,7 +332,7 @@ def _chain_label(spec):
     return ""
 
 
-def run_schema(label, spec, sizes, bound, max_runs=None):
+def run_schema(label, spec, sizes, bound, max_runs=None, policies=(0,)):
     import hypothesis
     import pandera as pa
 
@@ -366,7 +369,16 @@ def run_schema(label, spec, sizes, bound, max_runs=None):
                                 {"detail": f"size={size} script={script} example={_short(val)} -> {bad[1]}", "size": size, "script": {str(k): v for k, v in script.items()}})
 
         try:
-            st = explore(strat, bound, judge, max_runs=max_runs)
+            st = None
+            for pol in policies:
+                st1 = explore(strat, bound, judge, max_runs=max_runs, policy=pol)
+                if st is None:
+                    st = st1
+                else:
+                    for k_ in ("runs", "examples", "no_example"):
+                        st[k_] += st1[k_]
+                    st["max_points"] = max(st["max_points"], st1["max_points"])
+                    st["capped"] = st["capped"] or st1["capped"]
         except Divergence as exc:
             viol.setdefault(("replay_diverged", f"{label}"), {"detail": str(exc)[:300], "size": size, "script": {}})
             continue
@@ -399,8 +411,13 @@ def _short(val):
 
 def plan(tier, seed):
     space = schema_space(tier)
-    cases = [{"label": lab, "spec": spec, "sizes": [sz], "bound": d, "max_runs": 6000 if tier == "quick" else 60000}
-             for lab, spec, sizes, d in space for sz in sizes]
+    cases = []
+    for lab, spec, sizes, d in space:
+        nullable = any(c.get("nullable") for c in spec.get("cols", [])) or bool(spec.get("nullable"))
+        deep = lab in ("frame:two_unique_nullable", "frame:joint_unique_nullable")
+        for sz in sizes:
+            cases.append({"label": lab, "spec": spec, "sizes": [sz], "bound": max(d, 2) if deep and sz >= 2 else d,
+                          "max_runs": 6000 if tier == "quick" else 60000, "policies": [0, 1] if nullable else [0]})
     # cold-start histories: the same strategy built as the very first pandera operation of a fresh interpreter
     chk = [{"k": "lt", "a": [2]}]
     lv = [S.comp(name="k1", dtype="int64", checks=chk), S.comp(name="k2", dtype="str", checks=[{"k": "isin", "a": [["p", "q"]]}])]
@@ -413,7 +430,8 @@ def plan(tier, seed):
     for lab, spec in cold:
         cases.append({"label": lab, "spec": spec, "sizes": [2], "bound": 1, "cold": True})
     return {"cases": cases, "exhaustive": True,
-            "bounds": {"cold_start": "6 container kinds also explored in a fresh interpreter where building the strategy is pandera's first operation",
+            "bounds": {"default_paths": "schemas with nullable components are explored from two default paths (rotation offset 0 and 1), deviations counted from each",
+                       "cold_start": "6 container kinds also explored in a fresh interpreter where building the strategy is pandera's first operation",
                        "deviations": "Series/Index/Column-level schemas: 2 (quick) / 3 (thorough); DataFrame-level and the 19 further dtypes: 1 / 2; a schema whose exploration reaches "
                                      "max_runs executions is reported in counters.capped_schemas (then not exhaustive for that schema)", "sizes": "0..3 (frames 0..2 quick)",
                        "menus": "ints: shrink target, +-1, +2, bounds, bounds+-1 (or +-1000 when unbounded); floats: 0, +-1, .5, 1.5, +-2, 2.5, 3.5, +-1000, "
@@ -459,14 +477,16 @@ def run_case(case):
         return _run_cold(c)
     if "concrete" in case:
         c = case["concrete"]
-        viol, st, outcome = run_schema(c["label"], c["spec"], [c["size"]], c["bound"])
+        viol, st, outcome = run_schema(c["label"], c["spec"], [c["size"]], c["bound"], policies=tuple(c.get("policies", (0,))))
     else:
-        viol, st, outcome = run_schema(case["label"], case["spec"], case["sizes"], case["bound"], max_runs=case.get("max_runs"))
+        viol, st, outcome = run_schema(case["label"], case["spec"], case["sizes"], case["bound"], max_runs=case.get("max_runs"),
+                                       policies=tuple(case.get("policies", (0,))))
     out = []
     for (clause, key), info in viol.items():
         base = case["concrete"] if "concrete" in case else case
         out.append({"clause": clause, "key": key, "detail": info["detail"],
-                    "case": {"concrete": {"label": base["label"], "spec": base["spec"], "size": info["size"], "bound": base["bound"]}}})
+                    "case": {"concrete": {"label": base["label"], "spec": base["spec"], "size": info["size"], "bound": base["bound"],
+                                          "policies": list(base.get("policies", (0,)))}}})
     return {"viol": out, "states": max(1, st["distinct_examples"]), "transitions": max(1, st["runs"]), "execs": max(1, st["runs"]),
             "nontrivial": st["distinct_examples"] >= 2, "outcome": outcome if outcome != "explored" else ("examples" if st["examples"] else "no_examples"),
             "counters": {"examples": st["examples"], "no_example_runs": st["no_example"], "capped_schemas": 1 if st["capped"] else 0}}
